@@ -57,7 +57,9 @@ func defaultFor(r *rng.R, t schema.Type) schema.Expr {
 	return nil
 }
 
-var commentPool = []string{"plain", "with 'quote'", `with "dq"`, "multi\nline", "hash # and // slash", "unicode é", "${interp}", "%{tmpl}", "back\\slash"}
+var commentPool = []string{"plain", "with 'quote'", `with "dq"`, "multi\nline", "hash # and // slash", "unicode é", "${interp}", "%{tmpl}", "back\\slash",
+	// three and more lines, first line = last line (the printer writes a string as a heredoc only when it IS one)
+	"\nprice > 0\n", "+------+\n| note |\n+------+", "TODO\nmiddle\nTODO", "a\nb\nc\nd", "-\n-\n-"}
 
 func genSchema(r *rng.R, o *dops, pool []schema.Type, f *feat) *schema.Schema {
 	s := schema.New(schemaName(o))
@@ -92,6 +94,28 @@ func genSchema(r *rng.R, o *dops, pool []schema.Type, f *feat) *schema.Schema {
 				pk = schema.NewPrimaryKey(t.Columns[0], t.Columns[1])
 			}
 			t.Columns[0].Type.Null = false
+			// MySQL: whatever is valid on a part of a secondary index is valid on a part of the primary key
+			// (`primary_key { on { column, desc, prefix } }`, index type). SQLite/PG: the HCL primary_key block
+			// has `columns` only and neither inspector reports DESC on a key part, so such schemas are not
+			// reachable by inspection and stay outside the generated domain.
+			if r.Chance(1, 2) {
+				for _, p := range pk.Parts {
+					if o.name == "mysql" {
+						p.Desc = r.Chance(1, 3)
+						if p.Desc {
+							f.add("pk-desc")
+						}
+					}
+					if o.name == "mysql" && isStr(p.C.Type.Type) && r.Chance(2, 3) {
+						p.AddAttrs(&mysql.SubPart{Len: 1 + r.Intn(9)})
+						f.add("pk-prefix")
+					}
+				}
+				if o.name == "mysql" && r.Chance(1, 4) {
+					pk.AddAttrs(&mysql.IndexType{T: rng.Pick(r, []string{"BTREE", "HASH"})})
+					f.add("pk-type")
+				}
+			}
 			t.SetPrimaryKey(pk)
 			f.add("pk")
 		}
@@ -363,7 +387,127 @@ func runSchema(w *out.W, tier, dial string) {
 				w.NonTrivial(o.name + strings.Join(uniq(f.ks), "+") + fmt.Sprint(len(s.Tables)))
 			}
 			schemaOracle(w, o, id, s, desc)
+			if o.name != "sqlite" && i%3 == 0 {
+				realmCase(w, o, r, pool, "R"+id[1:])
+			}
 		}
+	}
+}
+
+// realmCase: a realm of two schemas that hold tables of the same names, with foreign keys that cross
+// from one schema to the same-named (and other) tables of the other one. MarshalHCL(realm) -> EvalHCLBytes
+// into a realm -> RealmDiff empty in both directions, every foreign key still points at the table of the
+// schema it pointed at (the differ compares reference tables by name only), re-marshal gives the same bytes.
+func realmCase(w *out.W, o *dops, r *rng.R, pool []schema.Type, id string) {
+	var plain []schema.Type
+	for _, t := range pool {
+		if _, ok := t.(*schema.EnumType); !ok {
+			plain = append(plain, t)
+		}
+	}
+	f := &feat{}
+	s1 := genSchema(r, o, plain, f)
+	s2 := genSchema(r, o, plain, f)
+	s2.Name = "other_" + s1.Name
+	// (the table attribute AUTO_INCREMENT=n is not marshalled: known finding of the schema stage, not repeated here)
+	for _, sc := range []*schema.Schema{s1, s2} {
+		for _, t := range sc.Tables {
+			var keep []schema.Attr
+			for _, a := range t.Attrs {
+				if _, ok := a.(*mysql.AutoIncrement); !ok {
+					keep = append(keep, a)
+				}
+			}
+			t.Attrs = keep
+		}
+	}
+	realm := schema.NewRealm(s1, s2)
+	s1.Realm, s2.Realm = realm, realm
+	type ref struct{ schema, table, symbol, toSchema, toTable string }
+	var refs []ref
+	for _, pair := range [][2]*schema.Schema{{s1, s2}, {s2, s1}} {
+		from, to := pair[0], pair[1]
+		for ti, t := range from.Tables {
+			if !r.Chance(2, 3) {
+				continue
+			}
+			// the same-named table of the other schema when there is one, else any of its tables
+			rt, ok := to.Table(t.Name)
+			if !ok || r.Chance(1, 4) {
+				rt = to.Tables[r.Intn(len(to.Tables))]
+			}
+			col := schema.NewColumn("x_" + rt.Name).SetType(cloneType(rt.Columns[0].Type.Type))
+			col.Type.Null = true
+			t.AddColumns(col)
+			fk := schema.NewForeignKey(fmt.Sprintf("xfk_%s_%d", from.Name, ti)).SetTable(t).AddColumns(col).SetRefTable(rt).AddRefColumns(rt.Columns[0])
+			t.AddForeignKeys(fk)
+			refs = append(refs, ref{from.Name, t.Name, fk.Symbol, to.Name, rt.Name})
+		}
+	}
+	desc := fmt.Sprintf("dialect=%s realm of schemas %s{%s} and %s{%s} cross-schema fks=%v", o.name, s1.Name, describe(s1), s2.Name, describe(s2), refs)
+	w.ImplOnly(id, desc)
+	w.Count(o.name + "/realms")
+	if len(refs) > 0 {
+		w.Count("feature/cross-schema-fk")
+		w.NonTrivial(fmt.Sprintf("%s realm %d", o.name, len(refs)))
+	}
+	var doc []byte
+	var back schema.Realm
+	st := "ok"
+	msg := ""
+	func() {
+		defer func() {
+			if rec := recover(); rec != nil {
+				st, msg = "panic", fmt.Sprint(rec)
+			}
+		}()
+		var err error
+		if doc, err = o.marshal(realm); err != nil {
+			st, msg = "marshal-err", err.Error()
+			return
+		}
+		if err = o.eval(doc, &back, nil); err != nil {
+			st, msg = "eval-err", err.Error()
+		}
+	}()
+	if st != "ok" {
+		w.Violation(id, "realm-"+st, fmt.Sprintf("%s error=%q", desc, firstLine(msg)))
+		return
+	}
+	c1, err1 := o.diff.RealmDiff(realm, &back)
+	c2, err2 := o.diff.RealmDiff(&back, realm)
+	if err1 != nil || err2 != nil {
+		w.Violation(id, "realm-diff-err", fmt.Sprintf("%s err=%v/%v", desc, err1, err2))
+		return
+	}
+	if len(c1) != 0 || len(c2) != 0 {
+		w.Violation(id, "realm-diff-nonempty", fmt.Sprintf("changes=%s | %s %s", changeKinds(c1), changeKinds(c2), desc))
+		return
+	}
+	for _, x := range refs {
+		bs, ok := back.Schema(x.schema)
+		if !ok {
+			w.Violation(id, "realm-schema-lost", x.schema+" "+desc)
+			return
+		}
+		bt, ok := bs.Table(x.table)
+		if !ok {
+			w.Violation(id, "realm-table-lost", x.schema+"."+x.table+" "+desc)
+			return
+		}
+		bf, ok := bt.ForeignKey(x.symbol)
+		if !ok || bf.RefTable == nil || bf.RefTable.Schema == nil {
+			w.Violation(id, "realm-fk-lost", fmt.Sprintf("%s.%s.%s %s", x.schema, x.table, x.symbol, desc))
+			return
+		}
+		if bf.RefTable.Name != x.toTable || bf.RefTable.Schema.Name != x.toSchema {
+			w.Violation(id, "realm-fk-repointed", fmt.Sprintf("foreign key %s.%s.%s referenced %s.%s and references %s.%s after the round trip; %s", x.schema, x.table, x.symbol, x.toSchema, x.toTable, bf.RefTable.Schema.Name, bf.RefTable.Name, desc))
+			return
+		}
+	}
+	doc2, err := o.marshal(&back)
+	if err != nil || !bytes.Equal(doc, doc2) {
+		w.Violation(id, "realm-remarshal-differs", fmt.Sprintf("firstdiff=%q %s", firstDiff(doc, doc2), desc))
 	}
 }
 
@@ -379,12 +523,25 @@ func uniq(xs []string) []string {
 	return r
 }
 
+var lastSchema = map[string]*schema.Schema{}
+
 func schemaOracle(w *out.W, o *dops, id string, s *schema.Schema, desc string) {
 	doc, st := o.marshalSafe(s)
 	if st != "ok" {
 		w.Violation(id, "schema-marshal-"+st, desc)
 		return
 	}
+	// the returned document belongs to the caller: later Marshal calls (of this or of any other schema) must not change it
+	keep := append([]byte(nil), doc...)
+	defer func() {
+		if lastSchema[o.name] != nil {
+			o.marshalSafe(lastSchema[o.name])
+		}
+		lastSchema[o.name] = s
+		if !bytes.Equal(keep, doc) {
+			w.Violation(id, "marshal-output-aliased", fmt.Sprintf("the bytes returned by MarshalHCL changed after later MarshalHCL calls: firstdiff=%q %s", firstDiff(keep, doc), desc))
+		}
+	}()
 	back, st, msg := o.evalSafe(doc)
 	if st != "ok" {
 		w.Violation(id, "schema-eval-"+st, fmt.Sprintf("%s error=%q", desc, firstLine(msg)))
